@@ -39,3 +39,16 @@ Proof.
   unfold uniform_ttl in U. rewrite E in U. cbn [forallb] in U.
   destruct (r_ttl p =? 0)%N, (r_ttl s =? 0)%N, (r_ttl x =? 0)%N; cbn in *; congruence.
 Qed.
+
+(* run level: in every state the composite reaches by ANY sequence of handler invocations whose updates name type T
+   (preach: the provider half of the pair network; the listening browser plays no role here), every multicast response of
+   every further step is uniform *)
+Theorem multicasts_are_uniform_in_every_run T c L w now ev m :
+  T <> [] -> bytes_eqb T browse_type = false -> preach bhear T c L w -> one_provider c ev -> ev_type_ok T ev ->
+  In (ESendAll m) (snd (comp_handle now c ev)) -> m_response m = true -> uniform_ttl (m_records m) = true.
+Proof.
+  intros HT Hbr R One Ty.
+  destruct (preach_inv bhear bhear_app bhear_silent hear_goodbye_effect hear_fresh_effect hear_over_effect T c L w HT Hbr R) as [IT _].
+  pose proof (lreach_inv _ _ (preach_lreach bhear T c L w R)) as Iv.
+  apply (multicasts_are_uniform T now c ev L m Iv IT One Ty).
+Qed.
